@@ -763,6 +763,13 @@ impl<'a> Client<'a> {
             }
             Op::FutGet(slot) => {
                 let Some((f, seq)) = self.futs[*slot].take() else { return };
+                if i % 2 == 1 {
+                    // polling consumer: wait for is_ready() (yielding in between), then get()
+                    rt::probe::hit("future_polled_until_ready");
+                    while !f.is_ready() {
+                        rt::thread::yield_now();
+                    }
+                }
                 let r = match f.get() {
                     Ok(()) => Ret::Ok,
                     Err(e) => map_err(&e),
